@@ -66,6 +66,22 @@ CHECKS = {
             "invariants; the implementation must hand back an instance of the celtypes class of the specified type and answer "
             "type(e) == T with true exactly for the specified T.",
             "Trusted: TLC, the projection of Python results. Conversion functions are covered under C10.", "5/C13"),
+    "C03": ("TLA+ trace spec Trace_C03 (Evaluate is one runner-independent action; SameOutcome relation) judging event pairs recorded "
+            "from both runner classes on the state spaces of the C02/C04/C07/C09/C13 models, the conformance corpus and random programs",
+            "Programs are the union of every generator model's state space (TLC), all conformance-corpus expressions with seeded "
+            "mutations and error-absorbing wrappers, and random nested programs; each is built and evaluated under both runner "
+            "classes and TLC decides SameOutcome (equal value of the same CEL type, or an error in both; a failure in program() or a "
+            "Python exception on one side only is a violation) for every pair.",
+            "Trusted: TLC, the projection of results to the abstract value universe. celpy extensions (min, reduce) and protobuf "
+            "message construction are out of scope.", "5/C03"),
+    "C04": ("TLA+ models MC_C04 (type-agnostic programs over 14 value kinds; all token sequences judged by CelSyntax!Parse) and the total "
+            "evaluator CelEval checked by TLC; every state replayed under both runners; compile/evaluate events validated by Trace_C04",
+            "TLC enumerates every operator, member form, function, method and macro applied to every value kind (ill-typed included, "
+            "wrong arities included), every literal text of the C07 model (well-formed or not) and every token sequence up to the "
+            "bound; the evaluator of the specification is total and its state machine has no 'Python exception' outcome, so the "
+            "implementation may only return a CEL value or raise CELEvalError / a located CELParseError, renderable with str() and "
+            "repr(); accept/reject must agree with the grammar.",
+            "Trusted: TLC, the outcome classifier. Lexical maximal munch is out of model.", "5/C04"),
 }
 NOT_YET = "check not built yet in this phase (planned per DESIGN.md section 5)"
 
